@@ -161,7 +161,7 @@ func (x *Exec) atReturn(fr *Frame, st *State, rv []Val) {
 		x.obligeX(st, "ensures", en.Name(), props, t, en.Text, "", en.MustFail, false)
 	}
 	if c.ModSet {
-		x.frameCheck(st, ev)
+		x.frameCheckAgainst(st, x.entry, c.Modifies, ev.withState(x.entry), "frame", c.Props)
 	}
 	// cover: this return is reachable (used for vacuity reporting only)
 	if x.retCount <= 64 {
@@ -171,8 +171,7 @@ func (x *Exec) atReturn(fr *Frame, st *State, rv []Val) {
 
 // frameCheck proves that every heap class touched on this path, other than the declared modifies,
 // agrees with its entry value on all references allocated before the call.
-func (x *Exec) frameCheck(st *State, ev *specEnv) {
-	c := x.c
+func (x *Exec) frameCheckAgainst(st *State, snap *State, items []string, oev *specEnv, namePfx string, props []string) {
 	// evaluate declared locations in the entry state
 	type loc struct {
 		prefix string
@@ -181,8 +180,7 @@ func (x *Exec) frameCheck(st *State, ev *specEnv) {
 	}
 	var locs []loc
 	everything := false
-	oev := ev.withState(x.entry)
-	for _, it := range c.Modifies {
+	for _, it := range items {
 		switch {
 		case it == "everything":
 			everything = true
@@ -212,10 +210,10 @@ func (x *Exec) frameCheck(st *State, ev *specEnv) {
 	n := 0
 	for _, class := range sortedKeys(st.heap) {
 		cur := st.heap[class]
-		entryT, ok := x.entry.heap[class]
+		entryT, ok := snap.heap[class]
 		if !ok {
-			// class first touched after entry: its entry version is class@0
-			entryT = x.classTermSort(x.entry, class, cur.Sort)
+			// class first touched after the snapshot: its snapshot version is the epoch version
+			entryT = x.classTermSort(snap, class, cur.Sort)
 		}
 		if cur.S == entryT.S {
 			continue
@@ -240,13 +238,13 @@ func (x *Exec) frameCheck(st *State, ev *specEnv) {
 		if strings.HasPrefix(class, "global:") {
 			g = mkEq(cur, entryT)
 		} else {
-			conds := []string{"(< 0 r)", fmt.Sprintf("(< r %s)", x.entry.alloc.S)}
+			conds := []string{"(< 0 r)", fmt.Sprintf("(< r %s)", snap.alloc.S)}
 			for _, e := range except {
 				conds = append(conds, fmt.Sprintf("(not (= r %s))", e.S))
 			}
 			g = Term{fmt.Sprintf("(forall ((r Int)) (=> (and %s) (= (select %s r) (select %s r))))", strings.Join(conds, " "), cur.S, entryT.S), sBool}
 		}
-		x.oblige(st, "frame", "frame#"+class, c.Props, g, "nothing outside the modifies clause changes: "+class, "")
+		x.oblige(st, "frame", namePfx+"#"+class, props, g, "nothing outside the modifies clause changes: "+class, "")
 	}
 }
 
